@@ -7,8 +7,8 @@ feature of that name; "pkg?/feat" does neither), and one row per reference found
 optional crate (`std`, `serde`, `serde_json`, `toml`, `miette`), to a gated module of the crate or to a
 gated inherent method, together with the conjunction of the `#[cfg(..)]` gates enclosing it (module-level
 gates from lib.rs included; `cfg(test)` regions are dead). The Lean file computes the closure itself and
-the theorem `Jp.C20.all_subsets_build` re-checks "every enabled reference is available" for all 256
-subsets with `decide +kernel`. This is an abstraction of rustc's name resolution; the exhaustive
+the theorem `Jp.C20.all_subsets_build` re-checks "every enabled reference is available" for all `2^nFeat`
+subsets (256 on the pinned tree; the feature universe is read from Cargo.toml) with `decide +kernel`. This is an abstraction of rustc's name resolution; the exhaustive
 `cargo check` sweep (tools/c20.py) is its correspondence check.
 
   featgen.py [--repo DIR] [--out FILE] [--json]     (--json: print the table and the model verdict per subset)
@@ -20,7 +20,11 @@ except ImportError:
     tomllib = None
 
 ROOT = "/repo"
-FEATS = ["std", "serde", "json", "toml", "assign", "resolve", "delete", "miette"]
+KNOWN_FEATS = ["std", "serde", "json", "toml", "assign", "resolve", "delete", "miette"]
+# The feature universe is read from Cargo.toml on every run (build_table): the eight features of the pinned tree
+# keep their bit positions, features a later tree adds follow in alphabetical order, removed ones disappear.
+FEATS = list(KNOWN_FEATS)
+KNOWN_DEPS = ["crate:std", "dep:serde", "dep:serde_json", "dep:toml", "dep:miette"]
 OPT_CRATES = {"serde_json": "dep:serde_json", "toml": "dep:toml", "miette": "dep:miette", "serde": "dep:serde", "std": "crate:std"}
 
 def strip(src):
@@ -137,11 +141,11 @@ def strip_comments_only(src):
 
 
 MODS = ["assign", "delete", "resolve"]
-DEPS = ["crate:std", "dep:serde", "dep:serde_json", "dep:toml", "dep:miette"]
+DEPS = list(KNOWN_DEPS)
 ATOMS = ["test", "doc", "docsrs"]
 
 def build_table(root):
-    global ROOT
+    global ROOT, FEATS, DEPS, OPT_CRATES
     ROOT = root
     cargo = open(os.path.join(ROOT, "Cargo.toml")).read()
     ct = tomllib.loads(cargo)
@@ -151,6 +155,15 @@ def build_table(root):
     used_dep = {imp[4:] for v in feats.values() for imp in v if imp.startswith("dep:")}
     for d in optional:
         if d not in used_dep and d not in feats: feats[d] = ["dep:" + d]
+    # the feature universe of THIS tree (`default` is a set of features, not a feature of its own for our purpose:
+    # every subset is swept with --no-default-features)
+    names = [f for f in feats if f != "default"]
+    FEATS[:] = [f for f in KNOWN_FEATS if f in names] + sorted(f for f in names if f not in KNOWN_FEATS)
+    # optional crates of THIS tree (+ std, which the `std` feature switches on through cfg_attr(no_std))
+    DEPS[:] = [d for d in KNOWN_DEPS if d == "crate:std" or d[4:] in optional] + sorted("dep:" + d for d in optional if "dep:" + d not in KNOWN_DEPS)
+    OPT_CRATES.clear()
+    OPT_CRATES.update({d[4:].replace("-", "_"): d for d in DEPS if d.startswith("dep:")})
+    OPT_CRATES["std"] = "crate:std"
     # direct edges
     fedges, dedges = [], []          # (f -> g) feature edges, (f -> dep) availability edges
     for f, imps in feats.items():
@@ -192,7 +205,8 @@ def build_table(root):
     for path in files:
         raw, nc, regs = parsed[path]
         rel = os.path.relpath(path, ROOT)
-        for m in re.finditer(r'(?<![\w:])(::)?(serde_json|toml|miette|serde|std)\s*::', nc):
+        crate_alt = "|".join(sorted((re.escape(c) for c in OPT_CRATES), key=len, reverse=True))
+        for m in re.finditer(r'(?<![\w:])(::)?(' + crate_alt + r')\s*::', nc):
             table.append((rel, gates_at(path, m.start()), OPT_CRATES[m.group(2)], nc.count('\n', 0, m.start()) + 1))
         for m in re.finditer(r'crate::(assign|delete|resolve|Assign|Delete|Resolve|ResolveMut)\b', nc):
             name = m.group(1)
@@ -234,7 +248,8 @@ def build_table(root):
             if "std" not in body: continue
             kind = 0 if re.search(r',\s*(no_std|macro_use)\s*\)\s*$', body.strip()) else 1
             stdgated.append((rel, cs.count('\n', 0, m.start()) + 1, kind, "cfg_attr(" + body.strip()[:40]))
-    return dict(feats=feats, fedges=fedges, dedges=dedges, always=always, table=table, modgate=modgate, stdgated=stdgated)
+    return dict(feats=feats, fedges=fedges, dedges=dedges, always=always, table=table, modgate=modgate, stdgated=stdgated,
+                featnames=list(FEATS), depnames=list(DEPS))
 
 def closure(T, S0):
     S = set(S0)
@@ -291,6 +306,9 @@ def emit_lean(T, out):
     L.append("namespace Jp.Gen")
     L.append("open Jp.Spec.Features")
     L.append("")
+    L.append(f"/-- number of features declared by Cargo.toml (implicit optional-dependency features included, `default` excluded) -/")
+    L.append(f"def nFeat : Nat := {len(FEATS)}")
+    L.append("")
     L.append("/-- direct feature edges `f ⇒ g` of Cargo.toml (feature indices: " + ", ".join(f"{i}={f}" for i, f in enumerate(FEATS)) + ") -/")
     fe = [(FEATS.index(f), FEATS.index(g)) for f, g in T["fedges"] if f in FEATS and g in FEATS]
     L.append("def featEdges : List (Nat × Nat) := [" + ", ".join(f"({a}, {b})" for a, b in fe) + "]")
@@ -314,7 +332,7 @@ def emit_lean(T, out):
         L.append(code + ("," if i + 1 < len(rows) else "") + "  -- " + com)
     L.append("]")
     L.append("")
-    L.append("def table : Table := ⟨featEdges, depEdges, modGates, rows⟩")
+    L.append("def table : Table := ⟨nFeat, featEdges, depEdges, modGates, rows⟩")
     L.append("")
     L.append("/-- every region / attribute whose gate mentions the `std` feature, outside `cfg(test)`: kind 0 = an")
     L.append("    `impl std::error::Error for …` block or a `no_std` / `macro_use` attribute (no behaviour), kind 1 = anything else -/")
@@ -341,12 +359,12 @@ def main():
     if a.out: emit_lean(T, a.out)
     if a.json:
         res = {}
-        for mask in range(256):
+        for mask in range(2 ** len(FEATS)):
             S0, bad = verdict(T, mask)
             res[mask] = dict(features=S0, unsatisfied=[list(b) for b in bad])
         print(json.dumps(dict(rows=len(T["table"]), fedges=T["fedges"], dedges=T["dedges"], verdicts=res)))
     else:
-        nbad = sum(1 for m in range(256) if verdict(T, m)[1])
+        nbad = sum(1 for m in range(2 ** len(FEATS)) if verdict(T, m)[1])
         print("std-gated regions:", len(T["stdgated"]), "behavioural:", [x for x in T["stdgated"] if x[2]])
         print(f"featgen: {len(T['table'])} rows, {len(T['fedges'])} feature edges, {len(T['dedges'])} crate edges, subsets with an unsatisfied need: {nbad}")
 
